@@ -18,8 +18,8 @@ import Pithos.Model.Http.Chunked
 namespace Pithos.HttpTrace
 open Pithos.Proto Pithos.SigV4 Pithos.Chunked
 
-/-- Which variant of the SigV4 model the drivers compare the implementation with.
-FLIP to `Fix.patched` once fixes/C29-collapse-header-spaces.patch is committed to /repo. -/
+/-- Which variant of the SigV4 model the drivers compare the implementation with:
+`Fix.patched` since /repo e6080ab (fixes/C29-collapse-header-spaces.patch); `Fix.asIs` before. -/
 def codeFix : Fix := Fix.patched
 
 def realCrypto : Crypto := { sha256hex := Pithos.Crypto.sha256hex, hmac := Pithos.Crypto.hmacSha256 }
@@ -106,7 +106,7 @@ def parseCase (lines : List String) : Option (CaseCfg × List Rec) := Id.run do
 -- ---------------------------------------------------------------- prediction
 
 inductive Pred where
-  | anonymous (body : Bytes)
+  | anonymous (body : Except Err Bytes)
   | rejected (why : Why)
   | accepted (ak : Bytes) (body : Except Err Bytes)
   deriving Repr
@@ -128,9 +128,32 @@ def chunkParams (c : Crypto) (cfg : Config) (r : Req) (a : Accepted) : Params :=
     skipValidation := sha == streamingUnsignedTrailer || sha == streamingUnsigned,
     trailerName := name }
 
+/-- Does the tree remove the aws-chunked framing of requests that do not pass signature
+verification (`decodeUnauthenticatedAwsChunkedBody`: the anonymous branch of
+`MakeSignatureMiddleware`, and `MakeAwsChunkedDecodingMiddleware` when no credentials are
+configured)? `true` since /repo c8f3b44 (fixes/C30-decode-aws-chunked-without-auth.patch);
+`false` mirrors the tree before it (body handed on verbatim). -/
+def unauthDecoder : Bool := true
+
+/-- `installAwsChunkReader(…, verifySignatures = false)`: framing only — no key, so chunk and
+trailer signatures are ignored; a declared checksum trailer is still validated. -/
+def framingOnlyParams (c : Crypto) (r : Req) : Params :=
+  let sha := headerGet r contentSHA256Header
+  let hasTrailer := sha == streamingUnsignedTrailer || sha == streamingPayloadTrailer || sha == streamingECDSATrailer
+  let name := lower (trimSpace (headerGet r (b! "x-amz-trailer")))
+  { c := c, cksum := if hasTrailer then trailerCksum name else none, signKey := [], timestamp := [],
+    scope := [], seed := [], hasTrailer := hasTrailer, trailerSigned := false, skipValidation := true,
+    trailerName := name }
+
+/-- the body a handler reads when the request did not pass signature verification -/
+def unauthBody (c : Crypto) (r : Req) : Except Err Bytes :=
+  if unauthDecoder && hasAwsChunked (headerGet r (b! "Content-Encoding")) then
+    decode (framingOnlyParams c r) r.body
+  else .ok r.body
+
 /-- `MakeSignatureMiddleware` in front of a handler that reads the whole body -/
 def predict (c : Crypto) (fx : Fix) (cfg : Config) (r : Req) : Pred :=
-  if isAnonymous r then .anonymous r.body
+  if isAnonymous r then .anonymous (unauthBody c r)
   else match checkAuth c fx cfg r with
     | .error w => .rejected w
     | .ok a =>
@@ -139,7 +162,8 @@ def predict (c : Crypto) (fx : Fix) (cfg : Config) (r : Req) : Pred :=
       else .accepted a.accessKey (.ok r.body)
 
 def Pred.describe : Pred → String
-  | .anonymous _ => "anonymous"
+  | .anonymous (.ok _) => "anonymous"
+  | .anonymous (.error e) => s!"anonymous-body-error({repr e})"
   | .rejected w => s!"rejected({repr w})"
   | .accepted _ (.ok _) => "accepted"
   | .accepted _ (.error e) => s!"accepted-body-error({repr e})"
@@ -147,9 +171,12 @@ def Pred.describe : Pred → String
 /-- compare a prediction with what the harness observed; `none` = agree -/
 def Pred.mismatch (p : Pred) (o : Obs) : Option String :=
   match p with
-  | .anonymous body =>
+  | .anonymous (.ok body) =>
     if o.status == 200 && o.reached && !o.authed && !o.bodyErr && o.bodyRead == body then none
-    else some s!"model=anonymous impl=status{o.status},authed={o.authed}"
+    else some s!"model=anonymous impl=status{o.status},authed={o.authed},bodyErr={o.bodyErr},bodyEq={o.bodyRead == body}"
+  | .anonymous (.error e) =>
+    if o.reached && !o.authed && o.bodyErr then none
+    else some s!"model=anonymous-body-error({repr e}) impl=status{o.status},reached={o.reached},bodyErr={o.bodyErr}"
   | .rejected w =>
     if o.status == 401 && !o.reached then none
     else some s!"model=rejected({repr w}) impl=status{o.status},reached={o.reached}"
